@@ -94,7 +94,9 @@ func (g *gen) handOps() []op {
 		return time.Duration(10+r.Intn(500)) * time.Second
 	}
 	n := int64(1 + r.Intn(9))
-	switch r.Intn(109) {
+	switch r.Intn(112) {
+	case 109, 110, 111:
+		return []op{doNothing()}
 	case 108:
 		// a call that rejects its arguments without sending a command (go-redis: the Cmder carries an error and is not
 		// part of the pipeline); it must not disturb its neighbours
@@ -481,6 +483,20 @@ func (g *gen) handOps() []op {
 		_, _ = p.Exec(ctx)
 		return cmd
 	}}}
+}
+
+// doNothing: Pipeliner.Do without arguments is rejected (the Cmder carries an error) and queues no command; it must not
+// disturb the commands queued around it. Outside a pipeline the reference is that same call on a fresh pipeline.
+func doNothing() op {
+	return op{name: "Do()", desc: "Do()", hand: true, answerable: true, call: func(c C) R {
+		if p, ok := c.(rueidiscompat.Pipeliner); ok {
+			return p.Do(ctx)
+		}
+		p := c.Pipeline()
+		cmd := p.Do(ctx)
+		_, _ = p.Exec(ctx)
+		return cmd
+	}}
 }
 
 // ---------------------------------------------------------------- reflective ops
